@@ -7,9 +7,11 @@ mod ctjudge;
 mod dwarfjudge;
 mod exec;
 mod gcjudge;
+mod histjudge;
 mod mapjudge;
 mod report;
 mod structural;
+mod visitjudge;
 
 use report::Report;
 use wv_gen::log::{self, Rec};
@@ -119,6 +121,8 @@ fn main() {
                 "C03" | "C04" => structural::run(c, &mut rep, &prop),
                 "C01" => exec::c01(c, &mut rep, seed),
                 "C14" => cfgjudge::run(c, &mut rep),
+                "C17" => histjudge::run(c, &mut rep),
+                "C16" => visitjudge::run(c, &mut rep),
                 "C11" => ctjudge::run(c, &mut rep),
                 "C10" => dwarfjudge::run(c, &mut rep),
                 "C19" => mapjudge::c19(c, &mut rep),
